@@ -284,6 +284,19 @@ func checkR02c(p *Prog, r *Report) {
 							}
 						}
 					}
+					// table function called with the field: ok result
+					if ex, ok := cond.(*ssa.Extract); ok && ex.Index == 1 {
+						if cl, ok := ex.Tuple.(*ssa.Call); ok && len(cl.Call.Args) >= 1 && sk(cl.Call.Args[len(cl.Call.Args)-1]) == fk {
+							if g := calleeOf(&cl.Call); g != nil && g.Pkg != nil && InRepo(g.Pkg.Pkg.Path()) {
+								if _, isTab := p.switchTable(g, "", ""); isTab {
+									touched = true
+									if val {
+										hit = true
+									}
+								}
+							}
+						}
+					}
 					if c, ok := cond.(*ssa.Const); ok && c.Value != nil && c.Value.String() == "true" && val {
 						// `ok = true` after a positive comparison: covered by pos
 					}
